@@ -319,58 +319,35 @@ def _filter_rules(repo, rep, mp):
     funcs = ['_ref_prop_matches', '_assoc_prop_matches',
              '_get_reference_classnames', '_get_reference_instnames',
              '_get_associated_classnames', '_get_associated_instancenames']
-    ntests = 0
-    for fn in funcs:
-        f = mp.methods.get(fn)
-        if f is None:
-            raise AnalysisError('MainProvider.%s vanished' % fn)
-        r4.functions.add(f.fq)
-        facts = stmt_facts(f.node)
-        for st in facts:
-            if not isinstance(st, ast.If):
-                continue
-            used = _names_in(st.test) & FILTER_NAMES
-            if not used:
-                continue
-            # enclosing `if <filter>:` also counts as the truthiness guard
-            outer = {n for t, p in facts[st][0] if p
-                     for n in _names_in(t) & FILTER_NAMES
-                     if _requires_truthy(t, n)}
-            for name in sorted(used):
-                ntests += 1
-                r4.sites += 1
-                # the lower-cased expansions come from _subclasses_lc(x),
-                # falsy exactly when the filter is None
-                fam = _family(name)
-                guard = any(_requires_truthy(st.test, n2) for n2 in fam) \
-                    or bool(fam & outer)
-                removes = _only_removes(st.body) and not st.orelse
-                ok = guard and removes
-                r4.ob(ok, '%s|%s|%s' % (fn, norm(st.test, 60), name),
-                      {'function': fn, 'test': norm(st.test, 80),
-                       'filter': name, 'none_means_no_filter': guard,
-                       'only_removes': removes})
-                if not ok:
-                    rep.finding(
-                        r4, f.qualname, norm(st.test, 60), 'filter-' + name,
-                        MAIN, st.lineno,
-                        ('the test does not require %s to be set: a call '
-                         'without this filter is filtered too' % name)
-                        if not guard else
-                        ('the branch taken when filter %s matches does more '
-                         'than dropping the candidate: adding the filter '
-                         'can add results' % name))
+    ntests = _filter_monotone(rep, r4, mp, funcs)
     if ntests < 12:
-        raise AnalysisError('only %d association filter tests found'
+        raise AnalysisError('only %d association filter uses found'
                             % ntests)
     # end placement at instance level
-    ai = mp.methods['_get_associated_instancenames']
+    from ..inline import Flat
+    from ..cfg import GuardWalker
+    ai = Flat(mp.methods['_get_associated_instancenames'],
+              keep=tuple(funcs))
     facts = stmt_facts(ai.node)
     srcp = ai.params[2] if ai.params[0] == 'self' else ai.params[1]
     src_test = 'prop.value == %s' % srcp
 
     def has(fs, text, pol):
-        return any(norm(t) == text and p == pol for t, p in fs)
+        # (a != b, False) is (a == b, True); conjuncts count on their own
+        for t0, p0 in fs:
+            for t, p_ in GuardWalker._atoms(t0, p0):
+                s_ = norm(t)
+                if s_ == text and p_ == pol:
+                    return True
+                if isinstance(t, ast.Compare) and len(t.ops) == 1 and \
+                        isinstance(t.ops[0], (ast.NotEq, ast.Eq)):
+                    flip = '%s %s %s' % (
+                        norm(t.left),
+                        '==' if isinstance(t.ops[0], ast.NotEq) else '!=',
+                        norm(t.comparators[0]))
+                    if flip == text and p_ == (not pol):
+                        return True
+        return False
     adds = [st for st in facts if isinstance(st, ast.Expr) and
             isinstance(st.value, ast.Call) and
             norm(st.value.func).endswith('.add')]
@@ -411,7 +388,8 @@ def _filter_rules(repo, rep, mp):
                         'association (Role/AssocClass constrain the '
                         'reference to the source, ResultRole/ResultClass '
                         'the other reference)' % ', '.join(sorted(used)))
-    ri = mp.methods['_get_reference_instnames']
+    ri = Flat(mp.methods['_get_reference_instnames'],
+              keep=tuple(funcs))
     facts = stmt_facts(ri.node)
     srcp = ri.params[2] if ri.params[0] == 'self' else ri.params[1]
     adds = [st for st in facts if isinstance(st, ast.Expr) and
@@ -507,3 +485,152 @@ def shadow_copy_rule(repo, rep):
                             % (x, sorted(acted) or '(not recognised)'))
     if r5.sites < 3:
         raise AnalysisError('only %d uses of %s' % (r5.sites, finder))
+
+
+def _filter_monotone(rep, r4, mp, funcs):
+    """Filters only remove candidates and None means no filter, decided on
+    the paths that accept a candidate (reach the statement that adds it to
+    the result / return True):
+
+      for every accepting path P there is an accepting path P' that is
+      feasible when the filter (and the lists derived from it) is None and
+      whose conditions other than those about the filter are a subset of
+      P's.
+
+    So switching the filter off never loses a result (None = no filter) and
+    switching it on never adds one.  The shape of the code (nested ifs,
+    `continue`, a boolean temporary, an extracted predicate helper) does not
+    matter: helpers are inlined first and conditions are evaluated in
+    three-valued logic under filter = None."""
+    from ..inline import Flat
+    from ..paths import block_paths, return_paths
+    from ..constprop import evaluate, UNKNOWN, _lookup_at
+    nuses = 0
+    keep = tuple(funcs)
+    for fn in funcs:
+        f0 = mp.methods.get(fn)
+        if f0 is None:
+            raise AnalysisError('MainProvider.%s vanished' % fn)
+        r4.functions.add(f0.fq)
+        f = Flat(f0, keep=keep)
+        used = {x.id for x in ast.walk(f.node) if isinstance(x, ast.Name)} \
+            & FILTER_NAMES
+        if not used:
+            continue
+        # scopes: (label, paths, accept predicate)
+        scopes = []
+        adds = [st for st in ast.walk(f.node) if isinstance(st, ast.Expr) and
+                isinstance(st.value, ast.Call) and
+                isinstance(st.value.func, ast.Attribute) and
+                st.value.func.attr in ('add', 'append') and
+                isinstance(st.value.func.value, ast.Name) and
+                (st.value.func.value.id.startswith('rtn') or
+                 st.value.func.value.id.startswith('result'))]
+        if adds:
+            loops = [n for n in ast.walk(f.node) if isinstance(n, ast.For)]
+            for lp in loops:
+                inner = [x for b in lp.body for x in ast.walk(b)]
+                if not any(a in inner for a in adds):
+                    continue
+                direct = [x for x in lp.body]
+                targets = [a for a in adds] + \
+                    [n for n in loops if n is not lp and n in inner and
+                     any(a in list(ast.walk(n)) for a in adds)]
+                ps = block_paths(lp.body, f)
+                if ps is None:
+                    raise AnalysisError('%s: too many paths in loop' % fn)
+                scopes.append((
+                    'loop@%s' % norm(lp.target, 30), ps,
+                    lambda p, T=targets: any(e in T for e in p.effects)))
+                # leaving the candidate loop early drops the remaining
+                # candidates, unless what was added does not depend on the
+                # loop variable (later iterations could only add the same)
+                lvars = {x.id for x in ast.walk(lp.target)
+                         if isinstance(x, ast.Name)}
+                for bp_ in ps:
+                    if not isinstance(bp_.ret_stmt, ast.Break):
+                        continue
+                    added = [e for e in bp_.effects if e in adds]
+                    harmless = added and all(
+                        not ({x.id for x in ast.walk(e.value.args[0])
+                              if isinstance(x, ast.Name)} & lvars)
+                        for e in added if e.value.args)
+                    r4.ob(bool(harmless), '%s|break@%d' % (
+                        fn, bp_.ret_stmt.lineno))
+                    if not harmless:
+                        conds = ' / '.join(
+                            ('' if pol else 'not ') + norm(t, 40)
+                            for t, pol in bp_.facts[-3:])
+                        rep.finding(
+                            r4, f0.qualname, 'break [%s]' % conds,
+                            'filter-break', MAIN, bp_.ret_stmt.lineno,
+                            'the loop over the candidates (%s) is left '
+                            'with break on the path [%s] without a result '
+                            'that is independent of the loop variable '
+                            'having been added: the remaining candidates '
+                            'are never examined, so results are lost'
+                            % (norm(lp.target, 30), conds))
+        else:
+            ps = return_paths(f, inline=False)
+            if ps is None:
+                raise AnalysisError('%s: too many paths' % fn)
+            scopes.append((
+                'return', ps,
+                lambda p: p.value is not None and not (
+                    isinstance(p.value, ast.Constant) and
+                    not p.value.value)))
+        for name in sorted(used):
+            fam = _family(name)
+            consts = {n: None for n in fam}
+            nuses += 1
+            r4.sites += 1
+            problems = []
+            for label, ps, accepts in scopes:
+                acc = [p for p in ps if accepts(p)]
+                if not acc:
+                    continue
+
+                def facts_of(p):
+                    out = []
+                    for (t, pol), pos in zip(p.facts, p.fact_pos):
+                        out.append((p.resolve(t), pol, pos))
+                    return out
+
+                def feasible_none(p):
+                    for t, pol, pos in facts_of(p):
+                        v = evaluate(t, _lookup_at(p, pos, consts, ()))
+                        if v is not UNKNOWN and bool(v) != pol:
+                            return False
+                    return True
+
+                def nonfilter(p):
+                    out = set()
+                    for t, pol, pos in facts_of(p):
+                        if {x.id for x in ast.walk(t)
+                                if isinstance(x, ast.Name)} & fam:
+                            continue
+                        out.add((norm(t, 200), pol))
+                    return out
+                base = [nonfilter(p) for p in acc if feasible_none(p)]
+                for p in acc:
+                    nf = nonfilter(p)
+                    if not any(b <= nf for b in base):
+                        problems.append((label, p))
+            ok = not problems
+            r4.ob(ok, '%s|%s' % (fn, name),
+                  {'function': fn, 'filter': name,
+                   'scopes': [l for l, _p, _a in scopes]})
+            if not ok:
+                label, p = problems[0]
+                conds = ' / '.join(('' if pol else 'not ') + norm(t, 40)
+                                   for t, pol in p.facts[-4:])
+                last = [e for e in p.effects if hasattr(e, 'lineno')]
+                rep.finding(
+                    r4, f0.qualname, 'filter %s' % name, 'filter-' + name,
+                    MAIN, last[-1].lineno if last else f0.node.lineno,
+                    'a candidate is accepted on the path [%s] but on no '
+                    'path that is possible when %s is None under the same '
+                    'other conditions: leaving the filter out loses results '
+                    '(None is filtered too), or setting it can add results'
+                    % (conds, name))
+    return nuses
